@@ -101,13 +101,16 @@ Record rghost := {
   h_bound : list N;                     (* repliers that were bound, in order *)
   h_rejected : list N;                  (* repliers that were refused *)
   h_keys : list (N * N);                (* (key, requestor label) *)
-  h_used : list N;                      (* labels already queued *)
+  h_used : list N;
+  h_told : list N;              (* rejected repliers whose sink accepted the replier-already-bound error frame *)
+  h_closed : list N;            (* rejected repliers on whose sink poll_close completed (Ok or Err) *)
+  h_rej_failed : list N;        (* rejected repliers whose sink failed before the error frame could be written *)                      (* labels already queued *)
 }.
 
 Definition rghost0 : rghost :=
   {| h_reqs_pulled := []; h_reqs_sent := []; h_reqs_refused := []; h_reqs_dropped := [];
      h_reps_pulled := []; h_reps_routed := []; h_reps_failed := []; h_reps_discarded := [];
-     h_bound := []; h_rejected := []; h_keys := []; h_used := [] |}.
+     h_bound := []; h_rejected := []; h_keys := []; h_used := []; h_told := []; h_closed := []; h_rej_failed := [] |}.
 
 Record rst := {
   server : option N;
@@ -195,62 +198,81 @@ Definition gh_req_pulled (k : N) (m : msg) (g : rghost) : rghost :=
   {| h_reqs_pulled := h_reqs_pulled g ++ [(k, m)]; h_reqs_sent := h_reqs_sent g; h_reqs_refused := h_reqs_refused g;
      h_reqs_dropped := h_reqs_dropped g; h_reps_pulled := h_reps_pulled g; h_reps_routed := h_reps_routed g;
      h_reps_failed := h_reps_failed g; h_reps_discarded := h_reps_discarded g; h_bound := h_bound g;
-     h_rejected := h_rejected g; h_keys := h_keys g; h_used := h_used g |}.
+     h_rejected := h_rejected g; h_keys := h_keys g; h_used := h_used g; h_told := h_told g; h_closed := h_closed g; h_rej_failed := h_rej_failed g |}.
 Definition gh_req_sent (l : N) (m : msg) (g : rghost) : rghost :=
   {| h_reqs_pulled := h_reqs_pulled g; h_reqs_sent := h_reqs_sent g ++ [(l, m)]; h_reqs_refused := h_reqs_refused g;
      h_reqs_dropped := h_reqs_dropped g; h_reps_pulled := h_reps_pulled g; h_reps_routed := h_reps_routed g;
      h_reps_failed := h_reps_failed g; h_reps_discarded := h_reps_discarded g; h_bound := h_bound g;
-     h_rejected := h_rejected g; h_keys := h_keys g; h_used := h_used g |}.
+     h_rejected := h_rejected g; h_keys := h_keys g; h_used := h_used g; h_told := h_told g; h_closed := h_closed g; h_rej_failed := h_rej_failed g |}.
 Definition gh_req_refused (l : N) (m : msg) (g : rghost) : rghost :=
   {| h_reqs_pulled := h_reqs_pulled g; h_reqs_sent := h_reqs_sent g; h_reqs_refused := h_reqs_refused g ++ [(l, m)];
      h_reqs_dropped := h_reqs_dropped g; h_reps_pulled := h_reps_pulled g; h_reps_routed := h_reps_routed g;
      h_reps_failed := h_reps_failed g; h_reps_discarded := h_reps_discarded g; h_bound := h_bound g;
-     h_rejected := h_rejected g; h_keys := h_keys g; h_used := h_used g |}.
+     h_rejected := h_rejected g; h_keys := h_keys g; h_used := h_used g; h_told := h_told g; h_closed := h_closed g; h_rej_failed := h_rej_failed g |}.
 Definition gh_req_dropped (srv : option N) (m : msg) (g : rghost) : rghost :=
   {| h_reqs_pulled := h_reqs_pulled g; h_reqs_sent := h_reqs_sent g; h_reqs_refused := h_reqs_refused g;
      h_reqs_dropped := h_reqs_dropped g ++ [(srv, m)]; h_reps_pulled := h_reps_pulled g; h_reps_routed := h_reps_routed g;
      h_reps_failed := h_reps_failed g; h_reps_discarded := h_reps_discarded g; h_bound := h_bound g;
-     h_rejected := h_rejected g; h_keys := h_keys g; h_used := h_used g |}.
+     h_rejected := h_rejected g; h_keys := h_keys g; h_used := h_used g; h_told := h_told g; h_closed := h_closed g; h_rej_failed := h_rej_failed g |}.
 Definition gh_rep_pulled (f : frame) (g : rghost) : rghost :=
   {| h_reqs_pulled := h_reqs_pulled g; h_reqs_sent := h_reqs_sent g; h_reqs_refused := h_reqs_refused g;
      h_reqs_dropped := h_reqs_dropped g; h_reps_pulled := h_reps_pulled g ++ [f]; h_reps_routed := h_reps_routed g;
      h_reps_failed := h_reps_failed g; h_reps_discarded := h_reps_discarded g; h_bound := h_bound g;
-     h_rejected := h_rejected g; h_keys := h_keys g; h_used := h_used g |}.
+     h_rejected := h_rejected g; h_keys := h_keys g; h_used := h_used g; h_told := h_told g; h_closed := h_closed g; h_rej_failed := h_rej_failed g |}.
 Definition gh_rep_routed (l : N) (m : msg) (g : rghost) : rghost :=
   {| h_reqs_pulled := h_reqs_pulled g; h_reqs_sent := h_reqs_sent g; h_reqs_refused := h_reqs_refused g;
      h_reqs_dropped := h_reqs_dropped g; h_reps_pulled := h_reps_pulled g; h_reps_routed := h_reps_routed g ++ [(l, m)];
      h_reps_failed := h_reps_failed g; h_reps_discarded := h_reps_discarded g; h_bound := h_bound g;
-     h_rejected := h_rejected g; h_keys := h_keys g; h_used := h_used g |}.
+     h_rejected := h_rejected g; h_keys := h_keys g; h_used := h_used g; h_told := h_told g; h_closed := h_closed g; h_rej_failed := h_rej_failed g |}.
 Definition gh_rep_failed (l : N) (m : msg) (g : rghost) : rghost :=
   {| h_reqs_pulled := h_reqs_pulled g; h_reqs_sent := h_reqs_sent g; h_reqs_refused := h_reqs_refused g;
      h_reqs_dropped := h_reqs_dropped g; h_reps_pulled := h_reps_pulled g; h_reps_routed := h_reps_routed g;
      h_reps_failed := h_reps_failed g ++ [(l, m)]; h_reps_discarded := h_reps_discarded g; h_bound := h_bound g;
-     h_rejected := h_rejected g; h_keys := h_keys g; h_used := h_used g |}.
+     h_rejected := h_rejected g; h_keys := h_keys g; h_used := h_used g; h_told := h_told g; h_closed := h_closed g; h_rej_failed := h_rej_failed g |}.
 Definition gh_rep_discarded (f : frame * N) (g : rghost) : rghost :=
   {| h_reqs_pulled := h_reqs_pulled g; h_reqs_sent := h_reqs_sent g; h_reqs_refused := h_reqs_refused g;
      h_reqs_dropped := h_reqs_dropped g; h_reps_pulled := h_reps_pulled g; h_reps_routed := h_reps_routed g;
      h_reps_failed := h_reps_failed g; h_reps_discarded := h_reps_discarded g ++ [f]; h_bound := h_bound g;
-     h_rejected := h_rejected g; h_keys := h_keys g; h_used := h_used g |}.
+     h_rejected := h_rejected g; h_keys := h_keys g; h_used := h_used g; h_told := h_told g; h_closed := h_closed g; h_rej_failed := h_rej_failed g |}.
 Definition gh_bound (l : N) (g : rghost) : rghost :=
   {| h_reqs_pulled := h_reqs_pulled g; h_reqs_sent := h_reqs_sent g; h_reqs_refused := h_reqs_refused g;
      h_reqs_dropped := h_reqs_dropped g; h_reps_pulled := h_reps_pulled g; h_reps_routed := h_reps_routed g;
      h_reps_failed := h_reps_failed g; h_reps_discarded := h_reps_discarded g; h_bound := h_bound g ++ [l];
-     h_rejected := h_rejected g; h_keys := h_keys g; h_used := h_used g |}.
+     h_rejected := h_rejected g; h_keys := h_keys g; h_used := h_used g; h_told := h_told g; h_closed := h_closed g; h_rej_failed := h_rej_failed g |}.
 Definition gh_rejected (l : N) (g : rghost) : rghost :=
   {| h_reqs_pulled := h_reqs_pulled g; h_reqs_sent := h_reqs_sent g; h_reqs_refused := h_reqs_refused g;
      h_reqs_dropped := h_reqs_dropped g; h_reps_pulled := h_reps_pulled g; h_reps_routed := h_reps_routed g;
      h_reps_failed := h_reps_failed g; h_reps_discarded := h_reps_discarded g; h_bound := h_bound g;
-     h_rejected := h_rejected g ++ [l]; h_keys := h_keys g; h_used := h_used g |}.
+     h_rejected := h_rejected g ++ [l]; h_keys := h_keys g; h_used := h_used g; h_told := h_told g; h_closed := h_closed g; h_rej_failed := h_rej_failed g |}.
 Definition gh_key (k l : N) (g : rghost) : rghost :=
   {| h_reqs_pulled := h_reqs_pulled g; h_reqs_sent := h_reqs_sent g; h_reqs_refused := h_reqs_refused g;
      h_reqs_dropped := h_reqs_dropped g; h_reps_pulled := h_reps_pulled g; h_reps_routed := h_reps_routed g;
      h_reps_failed := h_reps_failed g; h_reps_discarded := h_reps_discarded g; h_bound := h_bound g;
-     h_rejected := h_rejected g; h_keys := h_keys g ++ [(k, l)]; h_used := h_used g |}.
+     h_rejected := h_rejected g; h_keys := h_keys g ++ [(k, l)]; h_used := h_used g; h_told := h_told g; h_closed := h_closed g; h_rej_failed := h_rej_failed g |}.
 Definition gh_use (l : N) (g : rghost) : rghost :=
   {| h_reqs_pulled := h_reqs_pulled g; h_reqs_sent := h_reqs_sent g; h_reqs_refused := h_reqs_refused g;
      h_reqs_dropped := h_reqs_dropped g; h_reps_pulled := h_reps_pulled g; h_reps_routed := h_reps_routed g;
      h_reps_failed := h_reps_failed g; h_reps_discarded := h_reps_discarded g; h_bound := h_bound g;
-     h_rejected := h_rejected g; h_keys := h_keys g; h_used := l :: h_used g |}.
+     h_rejected := h_rejected g; h_keys := h_keys g; h_used := l :: h_used g; h_told := h_told g; h_closed := h_closed g; h_rej_failed := h_rej_failed g |}.
+
+Definition gh_told (l : N) (g : rghost) : rghost :=
+  {| h_reqs_pulled := h_reqs_pulled g; h_reqs_sent := h_reqs_sent g; h_reqs_refused := h_reqs_refused g;
+     h_reqs_dropped := h_reqs_dropped g; h_reps_pulled := h_reps_pulled g; h_reps_routed := h_reps_routed g;
+     h_reps_failed := h_reps_failed g; h_reps_discarded := h_reps_discarded g; h_bound := h_bound g;
+     h_rejected := h_rejected g; h_keys := h_keys g; h_used := h_used g;
+     h_told := l :: h_told g; h_closed := h_closed g; h_rej_failed := h_rej_failed g |}.
+Definition gh_closed (l : N) (g : rghost) : rghost :=
+  {| h_reqs_pulled := h_reqs_pulled g; h_reqs_sent := h_reqs_sent g; h_reqs_refused := h_reqs_refused g;
+     h_reqs_dropped := h_reqs_dropped g; h_reps_pulled := h_reps_pulled g; h_reps_routed := h_reps_routed g;
+     h_reps_failed := h_reps_failed g; h_reps_discarded := h_reps_discarded g; h_bound := h_bound g;
+     h_rejected := h_rejected g; h_keys := h_keys g; h_used := h_used g;
+     h_told := h_told g; h_closed := l :: h_closed g; h_rej_failed := h_rej_failed g |}.
+Definition gh_rej_failed (l : N) (g : rghost) : rghost :=
+  {| h_reqs_pulled := h_reqs_pulled g; h_reqs_sent := h_reqs_sent g; h_reqs_refused := h_reqs_refused g;
+     h_reqs_dropped := h_reqs_dropped g; h_reps_pulled := h_reps_pulled g; h_reps_routed := h_reps_routed g;
+     h_reps_failed := h_reps_failed g; h_reps_discarded := h_reps_discarded g; h_bound := h_bound g;
+     h_rejected := h_rejected g; h_keys := h_keys g; h_used := h_used g;
+     h_told := h_told g; h_closed := h_closed g; h_rej_failed := l :: h_rej_failed g |}.
 
 (** * helpers *)
 Definition labels (l : list (N * N)) : list N := map snd l.
@@ -483,19 +505,19 @@ Definition rstep_raw (s : rst) (e : rev) : option rst :=
   | RErrReady l =>
     match is_sink_ev_on l OReady e with
     | Some ROk => Some (u_ctl (u_armed s (disarm (SSink l) (rarmed s))) (RErrSend l))
-    | Some RErr => Some (u_ctl (u_armed s (disarm (SSink l) (rarmed s))) RErrSlot)          (* dropped *)
+    | Some RErr => Some (u_ctl (u_gh (u_armed s (disarm (SSink l) (rarmed s))) (gh_rej_failed l (rgh s))) RErrSlot)          (* dropped *)
     | Some RPending => Some (u_ctl (u_armed (u_err s (Some (true, l))) (arm (SSink l) (rarmed s))) (RReturn false))
     | None => None
     end
   | RErrSend l =>
     match is_sink_ev_on l (OSend (FErr REPLIER_ALREADY_BOUND_CODE)) e with
-    | Some ROk => Some (u_ctl (u_err s (Some (false, l))) RErrSlot)
-    | Some RErr => Some (u_ctl s RErrSlot)
+    | Some ROk => Some (u_ctl (u_gh (u_err s (Some (false, l))) (gh_told l (rgh s))) RErrSlot)
+    | Some RErr => Some (u_ctl (u_gh s (gh_rej_failed l (rgh s))) RErrSlot)
     | _ => None
     end
   | RErrClose l =>
     match is_sink_ev_on l OClose e with
-    | Some ROk | Some RErr => Some (u_ctl (u_armed s (disarm (SSink l) (rarmed s))) RErrSlot)
+    | Some ROk | Some RErr => Some (u_ctl (u_gh (u_armed s (disarm (SSink l) (rarmed s))) (gh_closed l (rgh s))) RErrSlot)
     | Some RPending => Some (u_ctl (u_armed (u_err s (Some (false, l))) (arm (SSink l) (rarmed s))) (RReturn false))
     | None => None
     end
